@@ -278,64 +278,101 @@ func checkDepthGuard(p *core.Program, r *core.Report, br *batchRoles) {
 	recv := ci.Ev.Params[0]
 	want := tf.Field(recv, depthField)
 	var guard *ssa.If
+	var cont *ssa.BasicBlock // where Define carries on once the depth was accepted
 	var why []string
-	for _, b := range ci.Fn.Blocks {
-		if len(b.Instrs) == 0 {
-			continue
+	ci.Ev.Events()
+	ci.Ev.WalkActivations(func(av *tf.Eval) {
+		if guard != nil {
+			return
 		}
-		ifi, ok := b.Instrs[len(b.Instrs)-1].(*ssa.If)
-		if !ok {
-			continue
-		}
-		cond := ci.Ev.Term(ifi.Cond)
-		if cond.K != tf.KBin || len(cond.Args) != 2 {
-			continue
-		}
-		// normalise to depth OP const
-		op := cond.Name
-		x, y := cond.Args[0], cond.Args[1]
-		if tf.Eq(y, want) {
-			x, y = y, x
-			switch op {
-			case "<":
-				op = ">"
-			case "<=":
-				op = ">="
-			case ">":
-				op = "<"
-			case ">=":
-				op = "<="
+		for _, b := range av.Fn.Blocks {
+			if len(b.Instrs) == 0 {
+				continue
 			}
-		}
-		if !tf.Eq(x, want) {
-			continue
-		}
-		c, isC := tf.IntConst(y)
-		if !isC {
-			continue
-		}
-		refusesAbove31 := (op == ">" && c == 31) || (op == ">=" && c == 32)
-		if !refusesAbove31 {
-			why = append(why, fmt.Sprintf("a test 'depth %s %d' exists but does not refuse exactly the depths above 31", op, c))
-			continue
-		}
-		// true branch returns a non-nil error
-		tb := b.Succs[0]
-		retOK := false
-		if len(tb.Instrs) > 0 {
-			if ret, ok := tb.Instrs[len(tb.Instrs)-1].(*ssa.Return); ok && len(ret.Results) > 0 {
-				last := ret.Results[len(ret.Results)-1]
-				if cst, isConst := last.(*ssa.Const); !isConst || cst.Value != nil {
-					retOK = true
+			ifi, ok := b.Instrs[len(b.Instrs)-1].(*ssa.If)
+			if !ok {
+				continue
+			}
+			cond := av.TermIn(ifi.Cond, b)
+			if cond.K != tf.KBin || len(cond.Args) != 2 {
+				continue
+			}
+			// normalise to depth OP const
+			op := cond.Name
+			x, y := cond.Args[0], cond.Args[1]
+			if tf.Eq(y, want) {
+				x, y = y, x
+				switch op {
+				case "<":
+					op = ">"
+				case "<=":
+					op = ">="
+				case ">":
+					op = "<"
+				case ">=":
+					op = "<="
 				}
 			}
+			if !tf.Eq(x, want) {
+				continue
+			}
+			c, isC := tf.IntConst(y)
+			if !isC {
+				continue
+			}
+			refusesAbove31 := (op == ">" && c == 31) || (op == ">=" && c == 32)
+			if !refusesAbove31 {
+				why = append(why, fmt.Sprintf("a test 'depth %s %d' exists but does not refuse exactly the depths above 31", op, c))
+				continue
+			}
+			// true branch returns a non-nil error
+			if !returnsError(b.Succs[0]) {
+				why = append(why, "the depth test does not lead to a return with a non-nil error")
+				continue
+			}
+			if av.Parent == nil {
+				guard, cont = ifi, b.Succs[1]
+				continue
+			}
+			// the test lives in a helper: its error must make Define return an error, and Define carries on past that test
+			chainOK := true
+			for a := av; a.Parent != nil; a = a.Parent {
+				if !errorResultPropagates(a.Site) {
+					chainOK = false
+				}
+			}
+			var rootSite ssa.CallInstruction
+			for a := av; a.Parent != nil; a = a.Parent {
+				rootSite = a.Site
+			}
+			if !chainOK || rootSite == nil {
+				why = append(why, "the depth test is made in a helper whose error does not reach Define's result")
+				continue
+			}
+			// the block in Define that runs when the helper returned nil
+			var c2 *ssa.BasicBlock
+			if v := rootSite.Value(); v != nil && v.Referrers() != nil {
+				for _, ref := range *v.Referrers() {
+					if bo, ok := ref.(*ssa.BinOp); ok && (bo.Op == token.NEQ || bo.Op == token.EQL) && bo.Referrers() != nil {
+						for _, r2 := range *bo.Referrers() {
+							if i2, ok := r2.(*ssa.If); ok {
+								if bo.Op == token.NEQ {
+									c2 = i2.Block().Succs[1]
+								} else {
+									c2 = i2.Block().Succs[0]
+								}
+							}
+						}
+					}
+				}
+			}
+			if c2 == nil {
+				why = append(why, "the helper's error is returned as Define's last action: nothing follows the depth test")
+				continue
+			}
+			guard, cont = ifi, c2
 		}
-		if !retOK {
-			why = append(why, "the depth test does not lead to a return with a non-nil error")
-			continue
-		}
-		guard = ifi
-	}
+	})
 	if guard == nil {
 		if len(why) == 0 {
 			why = append(why, "no test of the circuit's depth field against 31 found")
@@ -345,7 +382,6 @@ func checkDepthGuard(p *core.Program, r *core.Report, br *batchRoles) {
 	}
 	r.Count("depth guards", 1)
 	var before []string
-	cont := guard.Block().Succs[1]
 	for _, e := range ci.Events {
 		if e.Term.K != tf.KApi && e.Term.K != tf.KGadget {
 			continue
